@@ -38,6 +38,7 @@ var menu = []seg{
 	{"arc-ellipse-rot", oracle.CmdArc, []float64{3, 1, math.Pi / 6, 2, 4, 1}},
 	{"arc-ellipse-large-cw", oracle.CmdArc, []float64{2, 1, 0, 1, 1, 1}},
 	{"cube-cusp", oracle.CmdCube, []float64{3, 3, 0, 3, 3, 0}},
+	{"cube-serpentine", oracle.CmdCube, []float64{5, 5, -1, 4, 6, 3}}, // two inflection points inside (0,1)
 }
 
 func appendSeg(d []float64, cur oracle.Pt, s seg) ([]float64, oracle.Pt) {
@@ -106,6 +107,13 @@ func paths(tier string) []pathCase {
 	quadz := closed(open(o, menu[3]))                        // arch closed by a line
 	circle := closed(open(oracle.Pt{X: 2}, seg{"half", oracle.CmdArc, []float64{2, 2, 0, 2, -4, 0}}, seg{"half", oracle.CmdArc, []float64{2, 2, 0, 2, 4, 0}}))
 	cubez := closed(open(o, menu[5], ln(-1.5, -1))) // cubic, line, closing line
+	// closed subpaths whose FIRST segment is a curve of each kind (a dash that wraps over the start
+	// point is glued from the last and the first piece)
+	arcRotz := closed(open(o, menu[10], ln(-1, 3)))
+	arcLargez := closed(open(o, menu[11], ln(2, 2)))
+	cubeSz := closed(open(o, menu[6], ln(-1, -2)))
+	serpz := closed(open(o, menu[13], ln(-2, 1)))
+	ps = append(ps, arcRotz, arcLargez, cubeSz, serpz, concat(tri, arcRotz))
 	ps = append(ps, tri, triPt, quadz, circle, cubez,
 		concat(open(o, menu[1]), open(oracle.Pt{X: 5, Y: 1}, menu[8])),                    // two open subpaths
 		concat(open(o, menu[0]), closed(open(oracle.Pt{X: 0, Y: 5}, ln(4, 0), ln(0, 3)))), // open | closed
